@@ -27,5 +27,17 @@ func thoroughImpl(vdir, prop, repo string, p rules.Prop, seed int, obs *[]fw.Obl
 		*obs = append(*obs, o)
 	}
 	extra["configurations"] = []string{"host GOARCH", "GOARCH=386"}
+	// (d) sensitivity suite: stored single-edit mutations of the current tree must be reported
+	results := runSelftest(vdir, repo, prop, 4, "")
+	counts := map[string]int{}
+	for _, r := range results {
+		counts[r.Outcome]++
+		if r.Outcome == "missed" {
+			*obs = append(*obs, fw.Obligation{Rule: "selftest", Key: "selftest/" + r.ID, Status: fw.Undecided,
+				Detail: "stored mutation was applied to a scratch copy of the current tree but the rule did not report " + r.Expected + ": the checker lost its sensitivity (" + r.Detail + ")"})
+		}
+	}
+	extra["sensitivity"] = map[string]any{"mutations": len(results), "reported": counts["reported"], "missed": counts["missed"],
+		"skipped_source_changed": counts["skipped"], "skipped_mutant_does_not_compile": counts["broken"], "results": results}
 	return extra
 }
